@@ -170,6 +170,10 @@ class Rewriter:
             if b is not None and rng.random() < self.p:
                 self.applied.append('if-not swap')
                 return ('if', ('un', '!', c), b, a)
+            if b is None and rng.random() < self.p * 0.5:
+                # if (c) A  ->  if (!c) { } else A
+                self.applied.append('if-not swap (no else)')
+                return ('if', ('un', '!', c), ('block', []), a)
             return ('if', c, a, b)
         if k == 'while':
             return ('while', self.expr(s[1]), self.stmt(s[2]))
@@ -183,10 +187,62 @@ class Rewriter:
                 return ('block', [('expr', s[1]), ('while', self.expr(s[2]), ('block', list(inner) + [('expr', s[3])]))])
             return ('for', s[1], self.expr(s[2]) if s[2] is not None else None, s[3], body)
         if k == 'switch':
+            chain = self.switch_chain(s)
+            if chain is not None and rng.random() < self.p:
+                self.applied.append('switch -> if-chain')
+                return chain
             return ('switch', s[1], [(v, [self.stmt(x) for x in b]) for v, b in s[2]], [self.stmt(x) for x in s[3]] if s[3] is not None else None)
         if k == 'return' and s[1] is not None:
             return ('return', self.expr(s[1]))
         return s
+
+    def switch_chain(self, s):
+        """switch (e) { case v..: B; break; ... default: D }  ->  if (e == v || ..) B else if ... else D, when e is a plain
+        variable that no body assigns... (it is read once by the switch, several times by the chain: the first matching
+        arm is the only one that runs, so later changes do not matter), every case body ends with its only `break`
+        (no fall-through, no conditional exit: those have no counterpart in an if-chain) and contains no `continue`
+        bound outside"""
+        e = s[1]
+        if e[0] != 'var':
+            return None
+
+        def has_break(st):
+            k = st[0]
+            if k == 'break':
+                return True
+            if k == 'block':
+                return any(has_break(x) for x in st[1])
+            if k == 'if':
+                return has_break(st[2]) or (st[3] is not None and has_break(st[3]))
+            return False      # loops and inner switches bind their own break
+        arms = []
+        cases = list(s[2])
+        for n, (vals, body) in enumerate(cases):
+            last_case = (n == len(cases) - 1) and s[3] is None
+            if body and body[-1] == ('break',):
+                inner = body[:-1]
+            elif last_case:
+                inner = body
+            else:
+                return None
+            if not vals or any(has_break(x) for x in inner):
+                return None
+            arms.append((vals, [self.stmt(x) for x in inner]))
+        default = None
+        if s[3] is not None:
+            d = list(s[3])
+            if d and d[-1] == ('break',):
+                d = d[:-1]
+            if any(has_break(x) for x in d):
+                return None
+            default = ('block', [self.stmt(x) for x in d])
+        out = default
+        for vals, inner in reversed(arms):
+            c = ('bin', '==', e, ('num', vals[0]))
+            for v in vals[1:]:
+                c = ('bin', '||', c, ('bin', '==', e, ('num', v)))
+            out = ('if', c, ('block', inner), out)
+        return out
 
     def program(self, p):
         q = copy.deepcopy(p)
@@ -312,7 +368,7 @@ def run(ctx):
         # the comma family of the fixed enumeration (tools/lib/gen_c.py, K): the comma spelled as statements
         from lib.gen_c import directed_programs
         for k_, p_ in directed_programs().items():
-            if not k_.startswith('K_'):
+            if not (k_.startswith('K_') or k_.startswith('S_')):
                 continue
             rw = Rewriter(rng, 1.0)
             q = rw.program(p_)
@@ -332,7 +388,10 @@ def run(ctx):
             applied['ix%d' % i] = rw.applied
             for a in rw.applied:
                 kinds[a] = kinds.get(a, 0) + 1
-        res = compare_pairs(pairs, O, 8 if quick else 24, rng)
+        # the fixed enumeration is small: many more initial states (a case is taken for one value of its operand only)
+        dpairs = {k: v for k, v in pairs.items() if k.startswith('dS_') or k.startswith('dK_')}
+        res = compare_pairs({k: v for k, v in pairs.items() if k not in dpairs}, O, 8 if quick else 24, rng)
+        res.update(compare_pairs(dpairs, O, 64 if quick else 128, rng))
         for pid, (v, d) in res.items():
             stats[v] = stats.get(v, 0) + 1
             # a spelling the compiler refuses ('Code too complex') is a rejection, not a behaviour: counted only
@@ -388,4 +447,4 @@ def run(ctx):
                        'compound assignment unfolded/folded, ++/-- as += / -= 1, if/else with negated condition, for as while; '
                        'non-trivial = pairs with at least one rewrite whose executions agree on every decided state')
     ctx.cov['trusted_base'] = ['Coq 8.16.1 kernel', 'extraction of M6502/Sem.v and Src/CSem.v', 'harness ccv', 'the rewriter (tools/props/c15.py) applies only rewrites on side-effect-free operands']
-    ctx.assumptions = ['switch <-> if-chain and call <-> body rewrites are not generated yet']
+    ctx.assumptions = ['the call <-> body rewrite is the business of C14 (inline twins); switch -> if-chain is applied to switches without fall-through or conditional exits only']
